@@ -22,7 +22,7 @@ MANIFEST = {
              'Assumes pwr_out_max_init <= pwr_out_max, dt > 0, η in (0,1].'),
 }
 EXPLANATION = 'Guard inventory (ensure!/bail! conditions that dominate Ok exits) as SVN terms vs reference terms; spec-term equivalence for published limits.'
-RULES = ['C09-0.tolerance', 'C09-1.guard', 'C09-2.published', 'C09-3.chain', 'C09-4.bound', 'C09-5.rampbase']
+RULES = ['C09-0.tolerance', 'C09-1.guard', 'C09-2.published', 'C09-3.chain', 'C09-4.bound', 'C09-5.rampbase', 'C09-6.flags']
 ASSUMPTIONS = ['dt > 0', 'efficiency values in (0,1]', 'pwr_out_max_init <= pwr_out_max', 'ratings > 0']
 
 TOL = num('0.001')
@@ -111,6 +111,9 @@ def run(ctx):
     inv = inventory(ctx)
     n = 0
     tolerance_helpers(ctx)
+    # limits are enforced only under `assert_limits`: the flag must reach every component unchanged
+    from .common import flag_provenance
+    flag_provenance(ctx, 'C09-6.flags', 'assert_limits', floor=5)
     # ------------------------------------------------------------------ FuelConverter
     for b in inv.writers('FuelConverterState', 'pwr_brake'):
         if is_raw_setter(b): continue
